@@ -316,4 +316,7 @@ example : (bytesK { fresh with data_checksum_size := 2, payload := [1, 2] } []).
 example : (bytesK { fresh with data_checksum_size := 4, payload := [1, 2, 3, 4] } []).length = 28 ∧
     leNat (slice (bytesK { fresh with data_checksum_size := 4, payload := [1, 2, 3, 4] } []) 4 8) = 32 := by decide
 
+/-- `ch11_bytesK_zero`: its hypothesis holds for every object the constructor makes -/
+example : ({ fresh with payload := [1, 2, 3] } : State).data_checksum_size = 0 := rfl
+
 end Acra.Props.C03
